@@ -11,7 +11,7 @@ git checkout -q -- leader internal 2>/dev/null
 git apply SEED/patch.diff || { echo "PATCH DOES NOT APPLY"; exit 2; }
 mv $DEMO /tmp/$(basename $W)_demo.go
 echo "== (a) suite with change (demo removed)"
-go test -vet=off -count=1 ./... 2>&1 | tail -3
+go test -vet=off -count=1 -skip TestSeedDemo ./... 2>&1 | tail -3
 A=${PIPESTATUS[0]}
 mv /tmp/$(basename $W)_demo.go $DEMO
 TESTS=$(grep -o '^func Test[A-Za-z0-9_]*' $DEMO | sed 's/func //' | paste -sd'|')
